@@ -101,6 +101,7 @@ static void one_case(long long n, uint64_t seed, const std::string& dir)
 	std::string wire;
 	const unsigned first_seq_hint = 1;	// fresh stores: numbering starts at 1
 	std::atomic<bool> stop_reader{false};
+	std::atomic<long> seen_new{0};	// new application messages the wire reader has received completely
 	const bool resend_mode = r.chance(45);
 	const int resend_gap = (int)r.range(5, 60);	// new messages seen between the end of one answer and the next request
 	struct Req { unsigned begin, end, seen_hi; size_t wire_msg_index; };
@@ -116,7 +117,6 @@ static void one_case(long long n, uint64_t seed, const std::string& dir)
 			if (pr > 0) { ssize_t k = recv(peer, buf, sizeof buf, 0); if (k < 0 && (errno == EINTR || errno == EAGAIN)) continue; if (k <= 0) break; wire.append(buf, (size_t)k); }
 			else if (pr < 0 && errno == EINTR) continue;
 			else if (stop_reader.load()) break;
-			if (!resend_mode) continue;
 			// incremental look at the complete messages received so far
 			for (;;) {
 				if (wire.size() < parsed + 20 || wire.compare(parsed, 2, "8=")) break;
@@ -129,7 +129,7 @@ static void one_case(long long n, uint64_t seed, const std::string& dir)
 				parsed = end; ++nmsgs;
 				const unsigned sq = (unsigned)atol(field(m, "34").c_str());
 				const bool dup = field(m, "43") == "Y", gf = field(m, "35") == "4";
-				if (!dup && !gf) { if (sq > hi) hi = sq; ++since; }
+				if (!dup && !gf) { if (sq > hi) hi = sq; ++since; if (!field(m, "11").empty()) ++seen_new; }
 				else if (outstanding && !reqs.empty()) {
 					// the answer is complete once it has reached the last number that was certainly stored when we asked
 					const unsigned upto = gf ? (unsigned)atol(field(m, "36").c_str()) - 1 : sq;
@@ -138,7 +138,7 @@ static void one_case(long long n, uint64_t seed, const std::string& dir)
 					if (upto >= (reqs.back().end ? reqs.back().end : reqs.back().seen_hi - 1)) { outstanding = false; since = 0; }
 				}
 			}
-			if (!outstanding && since >= resend_gap && hi > first_seq_hint + 2 && reqs.size() < 12) {
+			if (resend_mode && !outstanding && since >= resend_gap && hi > first_seq_hint + 2 && reqs.size() < 12) {
 				Req q; q.seen_hi = hi; q.begin = (unsigned)rr.range(first_seq_hint, hi - 1); q.end = rr.chance(40) ? 0 : (unsigned)rr.range(q.begin, hi - 1); q.wire_msg_index = nmsgs;
 				char body[200], msg[300];
 				Tickval tv(true); struct tm tmv; time_t secs = (time_t)tv.secs(); gmtime_r(&secs, &tmv);
@@ -154,7 +154,8 @@ static void one_case(long long n, uint64_t seed, const std::string& dir)
 	std::vector<std::string> stored;	// read back before teardown: index = seqnum
 	long total = 0;
 	unsigned first_seq = 1;
-	bool drained = true;
+	bool drained = true, ended_early = false, peer_behind = false;
+	long refused_total = 0;
 	{
 		Persister *pers;
 		if (filep) { auto *fp = new FilePersister; fp->initialise(dir, "conc." + std::to_string(n), true); pers = fp; } else pers = new MemoryPersister;
@@ -167,6 +168,7 @@ static void one_case(long long n, uint64_t seed, const std::string& dir)
 		first_seq = ses.next_send();
 		std::vector<std::thread> th;
 		std::atomic<int> go{0};
+		std::atomic<long> refused{0};	// send() returned false (the library did not take the message)
 		for (int t = 0; t < nthreads; ++t) th.emplace_back([&, t] {
 			vh::Rng tr(seed * 977 + n * 31 + t);
 			while (!go.load()) sched_yield();
@@ -177,21 +179,27 @@ static void one_case(long long n, uint64_t seed, const std::string& dir)
 					const int b = (int)std::min<long long>(per - i, tr.range(2, 6));
 					std::vector<Message *> v;
 					for (int k = 0; k < b; ++k, ++i) v.push_back(mk_order("t" + std::to_string(t) + "_" + std::to_string(i), tr.chance(10) ? (size_t)tr.range(1, 600) : 0));
-					ses.send_batch(v);
+					const size_t took = ses.send_batch(v); if (took != v.size()) refused += (long)(v.size() - took);
 				} else if (pm == pm_thread && tr.chance(30)) {
 					// the by-reference overload (not available when pipelining): the caller keeps the message
 					std::unique_ptr<Message> m(mk_order("t" + std::to_string(t) + "_" + std::to_string(i), tr.chance(10) ? (size_t)tr.range(1, 600) : 0));
-					ses.send(*m); ++i;
-				} else { ses.send(mk_order("t" + std::to_string(t) + "_" + std::to_string(i), tr.chance(10) ? (size_t)tr.range(1, 600) : 0)); ++i; }
+					if (!ses.send(*m)) ++refused; ++i;
+				} else { if (!ses.send(mk_order("t" + std::to_string(t) + "_" + std::to_string(i), tr.chance(10) ? (size_t)tr.range(1, 600) : 0))) ++refused; ++i; }
 			}
 		});
 		go = 1;
 		for (auto& t : th) t.join();
 		total = (long)nthreads * per;
+		refused_total = refused.load();
 		// pipeline: the writer thread drains its queue; wait until the session has numbered everything (watchdog 30 s)
 		for (int i = 0; i < 120000 && (long)(ses.next_send() - first_seq) < total; ++i) std::this_thread::sleep_for(std::chrono::milliseconds(1));
 		if ((long)(ses.next_send() - first_seq) < total) drained = false;	// watchdog: the verdict on counts would be about machine load
+		// the peer must have READ everything before the session closes its socket: a close with unread inbound data (a resend request
+		// the session never got to) resets the connection, and a reset discards what the peer has not read yet
+		for (int i = 0; i < 120000 && drained && seen_new.load() < total - refused.load(); ++i) std::this_thread::sleep_for(std::chrono::milliseconds(1));
+		if (drained && seen_new.load() < total - refused.load()) peer_behind = true;
 		std::this_thread::sleep_for(std::chrono::milliseconds(5));
+		ended_early = ses.is_shutdown();	// diagnosis: the session gave up by itself (it should not)
 		stored.resize(first_seq + total + 2);
 		for (unsigned s = first_seq; s < first_seq + total; ++s) { f8String to; if (ses.persister()->get(s, to)) stored[s] = to; }
 		ses.stop();
@@ -203,7 +211,11 @@ static void one_case(long long n, uint64_t seed, const std::string& dir)
 	const std::string cls = std::string(pm == pm_thread ? "pm_thread" : "pm_pipeline") + "|" + (filep ? "file" : "memory");
 	char d[400];
 	std::vector<std::string> msgs;
-	if (!split(wire, msgs)) { snprintf(d, sizeof d, "%zu bytes on the wire do not split into whole messages after %zu messages (interleaved writes?)", wire.size(), msgs.size()); R.viol("oracle:wire-stream-corrupt|" + cls, d); }
+	if (!split(wire, msgs) && !peer_behind) {
+		size_t off = 0; for (auto& m : msgs) off += m.size();
+		std::string ctxs = wire.substr(off > 60 ? off - 60 : 0, 360); for (auto& ch : ctxs) if (ch == 1) ch = '|'; else if ((unsigned char)ch < 32 || (unsigned char)ch > 126) ch = '?';
+		char dd[900]; snprintf(dd, sizeof dd, "%zu bytes on the wire do not split into whole messages after %zu messages (offset %zu; interleaved writes?); bytes around that offset: %s", wire.size(), msgs.size(), off, ctxs.c_str());
+		R.viol("oracle:wire-stream-corrupt|" + cls, dd); }
 	std::map<std::string, int> ids; bool ok = true;
 	unsigned expect = first_seq;
 	uint64_t order_hash = 1469598103934665603ULL;
@@ -277,8 +289,11 @@ static void one_case(long long n, uint64_t seed, const std::string& dir)
 		R.viol("oracle:gapfill-skips-stored-message|" + cls, d); ok = false;
 	}
 	R.stat("resend_requests", (long long)reqs.size()); R.stat("retransmissions_checked", replayed); R.stat("gap_fills_seen", gapfills);
+	if (peer_behind) { R.viol("inconclusive:peer-had-not-read-everything-after-120s|" + cls, "the wire reader had not received all messages 120 s after the last send"); ok = false; }
 	if (!drained) { R.viol("inconclusive:writer-not-drained-after-120s|" + cls, "the pipelined writer had not numbered all queued messages after 120 s"); ok = false; }
-	if (new_app != total && ok) { snprintf(d, sizeof d, "threads=%d per=%d: %ld messages sent, %ld on the wire", nthreads, per, total, new_app); R.viol("oracle:message-count-differs|" + cls, d); ok = false; }
+	std::string admin_types;
+	for (auto& m : msgs) { const std::string t = field(m, "35"); if (t != "D" && t != "4" && admin_types.size() < 120) admin_types += t + "#" + field(m, "34") + (field(m, "58").empty() ? "" : "(" + field(m, "58").substr(0, 60) + ")") + " "; }
+	if (new_app != total - refused_total && ok) { snprintf(d, sizeof d, "threads=%d per=%d: %ld messages sent, %ld on the wire; session shut down by itself=%d; admin messages from the session: [%s]; resend requests sent by the peer: %zu; sends refused (send() false): %ld", nthreads, per, total, new_app, (int)ended_early, admin_types.c_str(), reqs.size(), refused_total); R.viol("oracle:message-count-differs|" + cls, d); ok = false; }
 	for (auto& p : ids) if (p.second != 1 && ok) { R.viol("oracle:message-transmitted-more-than-once|" + cls, "id " + p.first + " appears " + std::to_string(p.second) + " times"); ok = false; }
 	R.stat("runs"); R.stat("messages_sent", total); R.stat("wire_messages", (long long)msgs.size());
 	R.distinct("wire_interleaving", order_hash);
